@@ -5,6 +5,7 @@
     finds a child by binary search, the model by a linear scan of the sorted list).
     Definitions only; lemmas in [PrefixMapProofs.v]. *)
 From Coq Require Import NArith List Bool.
+From CB Require Import Trie.Radix.
 Import ListNotations.
 Local Open Scope N_scope.
 
@@ -178,10 +179,16 @@ Definition pm_dump (m : pmap) : list (list N * N) :=
 
 (** Invariant of the structure: children strictly sorted, counts within [u32], and
     every node without children carries a count (no dead branches). *)
+Fixpoint pall_gt (b : N) (f : pforest) : bool :=
+  match f with
+  | PNil => true
+  | PCons b' _ r => (b <? b') && pall_gt b r
+  end.
+
 Fixpoint psorted (f : pforest) : bool :=
   match f with
   | PNil => true
-  | PCons b _ r => (match r with PNil => true | PCons b' _ _ => b <? b' end) && psorted r
+  | PCons b _ r => pall_gt b r && psorted r
   end.
 
 Fixpoint pn_wf (n : pnode) : bool :=
@@ -198,3 +205,45 @@ with pf_wf (f : pforest) : bool :=
 
 Definition pm_wf (m : pmap) : bool :=
   match m with None => true | Some n => pn_wf n end.
+
+(** * Histories of the prefix map and their multiset specification *)
+
+Inductive pop := PIns (k : list N) | PDel (k : list N) | PCheck (k : list N) | PIohp (k : list N).
+
+Definition pm_step (o : pop) (m : pmap) : pmap * bool :=
+  match o with
+  | PIns k => match pm_insert k m with Some m' => (m', true) | None => (m, false) end
+  | PDel k => pm_delete k m
+  | PCheck k => (m, pm_no_prefix k m)
+  | PIohp k => (m, pm_iohp k m)
+  end.
+
+Fixpoint pm_run (ops : list pop) (m : pmap) : pmap * list bool :=
+  match ops with
+  | [] => (m, [])
+  | o :: r => let (m', b) := pm_step o m in let (m'', bs) := pm_run r m' in (m'', b :: bs)
+  end.
+
+(** Specification: a multiset of byte strings as a list. *)
+Definition bag := list (list N).
+Definition bag_count (k : list N) (b : bag) : N := N.of_nat (length (filter (list_eqb k) b)).
+
+Fixpoint bag_remove (k : list N) (b : bag) : bag :=
+  match b with
+  | [] => []
+  | x :: r => if list_eqb k x then r else x :: bag_remove k r
+  end.
+
+Definition bag_step (o : pop) (b : bag) : bag * bool :=
+  match o with
+  | PIns k => if bag_count k b =? MAXC then (b, false) else (k :: b, true)
+  | PDel k => (bag_remove k b, negb (bag_count k b =? 0))
+  | PCheck k => (b, negb (existsb (fun p => is_prefix p k) b))
+  | PIohp k => (b, existsb (fun p => is_prefix p k || is_prefix k p) b)
+  end.
+
+Fixpoint bag_run (ops : list pop) (b : bag) : bag * list bool :=
+  match ops with
+  | [] => (b, [])
+  | o :: r => let (b', x) := bag_step o b in let (b'', xs) := bag_run r b' in (b'', x :: xs)
+  end.
